@@ -155,6 +155,16 @@ CHECKS = {
         design="4/C16", technique="Lean 4 proof (Finset sum exchange + field_simp) + exact rational evaluation of the emitted code",
         note="Hypothesis A_s != 0 excludes grain species (mass number 0): known finding F11. IEEE evaluation and the dense solver "
              "are not modelled; 'finite' is implied by exact solvability of the non-singular system."),
+    "C10": dict(
+        text="Theorems firstUndeclared_none_iff (the use-def walk reports nothing iff every derived quantity uses only names "
+             "declared before it), merge_keys_nodup (the merged registry declares every symbol exactly once), "
+             "closed_combo_partial (decide +kernel over the class registries regenerated from the source: every reaction format "
+             "alone, with each grain model except hh93i, with thermal processes - given the species H2 - is closed), F13_witness, "
+             "F17_witness. Tie: ~60 rendered (network, grain model, back-end) combinations compiled with g++ -fsyntax-only against "
+             "the SUNDIALS/Boost stand-ins; the compiler's verdict must equal the model's verdict on the network's own registries.",
+        design="4/C10", technique="Lean 4 proof (use-def closure, decide over generated registries) + compilation of rendered sources",
+        note="Partial: only naunet's registered names are modelled; types, the rate expressions themselves and the real "
+             "SUNDIALS/Boost headers are covered by compilation against /verif/shim only. F13, F17, F9-compile are known findings."),
 }
 
 NOT_YET = {}
